@@ -19,10 +19,9 @@ CONSTANT Size
 
 VARIABLES a, b
 
-VP == ValuePool(Size)
-
-Init == a \in VP /\ b = a
-Next == b' \in VP /\ a' = a
+\* one initial state per pair (the LET makes TLC build the pool once)
+Init == LET vp == ValuePool(Size) IN a \in vp /\ b \in vp
+Next == UNCHANGED <<a, b>>
 
 Cex(law) == PrintT("CEX " \o ToJson([law |-> law, a |-> a, b |-> b]))
 Check(law, ok) == ok \/ ~Cex(law)
